@@ -80,7 +80,7 @@ func runC15(c *core.Ctx) {
 				}
 			}
 		}
-		o.Require(n >= 8, "only %d raw writes examined", n)
+		o.Shape(n >= 8, "only %d raw writes examined", n)
 	})
 	c.Check("C15-R4", cp+".Operator.Format/framing", "operands go through pdf.Format(OptContentStream) and are separated by white space; the operator name is followed by an EOL; inline images are framed as BI EOL / ID + one white-space byte / data / one EOL byte + EI + EOL", func(o *core.Ob) {
 		fn := c.Prog.Func(cp, "Operator.Format")
@@ -98,7 +98,7 @@ func runC15(c *core.Ctx) {
 		}
 		// every pdf.Format call uses OptContentStream
 		fc := callVertices(g, "pdf.Format")
-		o.Require(len(fc) >= 3, "expected Format calls for inline-image keys, values and operands")
+		o.Shape(len(fc) >= 3, "expected Format calls for inline-image keys, values and operands")
 		for _, cv := range fc {
 			o.Require(core.ExprStr(cv.Call.Args[1]) == "pdf.OptContentStream", "pdf.Format is called with %s", core.ExprStr(cv.Call.Args[1]))
 		}
@@ -173,7 +173,7 @@ func runC15(c *core.Ctx) {
 		}
 		// checkEI is called on that edge
 		ce := callVertices(g, cp+".(*scanner).checkEI")
-		o.Require(len(ce) == 1, "expected one checkEI call")
+		o.Shape(len(ce) == 1, "expected one checkEI call")
 		// one white-space byte after ID
 		src := c.Prog.Src(fn.Decl.Body)
 		o.Shape(strings.Contains(src, "b,_:=s.Peek()ifclass[b]==space{s.ReadByte()}"), "exactly one white-space byte must be skipped after ID")
@@ -222,7 +222,7 @@ func runC15(c *core.Ctx) {
 				o.Fail("operator %q is renamed to %q when scanned", k, v)
 			}
 		}
-		o.Require(len(cl.Elts) >= 70, "operatorTable has only %d entries", len(cl.Elts))
+		o.Shape(len(cl.Elts) >= 70, "operatorTable has only %d entries", len(cl.Elts))
 	})
 	c.Check("C15-R8", "integer-range", "integer tokens are parsed with 64-bit range by the object scanner and by the content scanner (pdf.Integer is 64 bit; a narrower parse turns large integers into reals)", func(o *core.Ob) {
 		n := 0
@@ -244,7 +244,7 @@ func runC15(c *core.Ctx) {
 				}
 			}
 		}
-		o.Require(n >= 3, "expected the integer parses of both scanners, found %d", n)
+		o.Shape(n >= 3, "expected the integer parses of both scanners, found %d", n)
 		_ = types.Typ
 	})
 }
@@ -604,7 +604,7 @@ func rulePublishedNotRecycled(c *core.Ctx, rule string, pkgs ...string) {
 				o.FailAt(r.fn.Site(r.node, "recycled"), "%s: %s recycles the storage of %s (%s), which is handed out at %s (%s): later writes overwrite what the holder sees", c.Prog.Pos(r.node.Pos()), r.fn.Key, key, r.how, c.Prog.Pos(ps[0].node.Pos()), ps[0].how)
 			}
 		}
-		o.Require(nFields >= 1, "only %d slice fields found", nFields)
+		o.Shape(nFields >= 1, "only %d slice fields found", nFields)
 		o.Fact("%d local slices handed to retaining callees", nLocalPub)
 		for _, lb := range localBad {
 			o.FailAt(lb.fn.Site(lb.rec, "recycled"), "%s: the local slice %s is handed to %s, which keeps it (%s), and is then recycled with %s: what is appended afterwards overwrites the operands already emitted", c.Prog.Pos(lb.rec.Pos()), lb.name, lb.callee, c.Prog.Pos(lb.pub.Pos()), c.Prog.Src(lb.rec))
@@ -665,7 +665,7 @@ func ruleNoDeadFieldStores(c *core.Ctx) {
 				}
 			}
 		}
-		o.Require(n >= 3, "only %d nested field stores found", n)
+		o.Shape(n >= 3, "only %d nested field stores found", n)
 	})
 	c.Check("C15-R10", pk+".(*Builder).Reset/version", "Reset installs the builder's PDF version in the state it creates", func(o *core.Ob) {
 		fn := c.Prog.Func(pk, "(*Builder).Reset")
